@@ -722,6 +722,8 @@ func isUnknownSpec(a predOutcome) predOutcome {
 //@ func castJSONNumber
 //@ props C13
 //@ ensures [C13] result-numeric: r1 ==> is[int64](r0) || is[float64](r0)
+//@ ensures [C13] integer-stays-exact: uninterp[bool]("jnIsInt", string(num)) ==> r1 && r0 == any(dynret[int64](intCallback, 0, uninterp[int64]("jnInt", string(num))))
+//@ ensures [C13] fraction-as-float: !uninterp[bool]("jnIsInt", string(num)) && uninterp[bool]("jnIsFloat", string(num)) ==> r1 && r0 == any(dynret[float64](floatCallback, 0, uninterp[float64]("jnFloat", string(num))))
 
 //@ func (*Executor).execBinaryMathExpr
 //@ props C13
@@ -745,6 +747,7 @@ func isUnknownSpec(a predOutcome) predOutcome {
 //@ atcall executeNextItem assert [C13] numeric-only: arg_found == found && (is[int64](v) || is[float64](v) || is[json.Number](v))
 //@ atcall executeNextItem assert [C13] int-negated: is[int64](v) ==> arg_value == any(dynret[int64](intCallback, 0, as[int64](v)))
 //@ atcall executeNextItem assert [C13] float-negated: is[float64](v) ==> arg_value == any(dynret[float64](floatCallback, 0, as[float64](v)))
+//@ ensures [C13 C06] not-found-means-every-item-tried: r0 == statusNotFound && r1 == nil && !(node.Next() == nil && found == nil) ==> ncalls(exec.executeNextItem) == len(seq.list)
 //@ ensures [C06 C13] exists-ok-comes-from-continuation: found == nil && node.Next() != nil && r0 == statusOK ==> ncalls(exec.executeNextItem) >= 1 && callret[resultStatus](exec.executeNextItem, 0) == statusOK
 
 // ---------------------------------------------------------------------------
@@ -848,6 +851,7 @@ func isUnknownSpec(a predOutcome) predOutcome {
 //@ ensures [C16] domain: !(is[[]any](value) || is[int64](value) || is[float64](value) || is[json.Number](value) || is[string](value)) ==> r0 == statusFailed && (r1 == nil || errIs(r1, ErrVerbose)) && ncalls(exec.executeNextItem) == 0
 //@ ensures [C16] array-unwrap: is[[]any](value) && unwrap ==> ncalls(exec.executeItemUnwrapTargetArray) == 1 && ncalls(exec.executeNextItem) == 0
 //@ ensures [C16] array-strict: is[[]any](value) && !unwrap ==> r0 == statusFailed && ncalls(exec.executeNextItem) == 0
+//@ ensures [C06 C16] result-comes-from-continuation: r0 != statusFailed && !(is[[]any](value) && unwrap) ==> ncalls(exec.executeNextItem) == 1 && r0 == callret[resultStatus](exec.executeNextItem, 0) && r1 == callret[error](exec.executeNextItem, 1)
 
 //@ func (*Executor).execMethodInteger
 //@ alsoprops E3 C16
@@ -860,6 +864,7 @@ func isUnknownSpec(a predOutcome) predOutcome {
 //@ ensures [C16] float-rounds-half-away: is[float64](value) && ncalls(exec.executeNextItem) == 1 ==> callarg[any](exec.executeNextItem, "value") == any(f2iTrunc(roundHalfAway(as[float64](value))))
 //@ ensures [C16] float-accepted-in-range: is[float64](value) && !isNaN(as[float64](value)) && roundHalfAway(as[float64](value)) >= -2147483648.0 && roundHalfAway(as[float64](value)) <= 2147483647.0 ==> ncalls(exec.executeNextItem) == 1
 //@ ensures [C16] domain: !(is[[]any](value) || is[int64](value) || is[float64](value) || is[json.Number](value) || is[string](value)) ==> r0 == statusFailed && ncalls(exec.executeNextItem) == 0
+//@ ensures [C06 C16] result-comes-from-continuation: r0 != statusFailed && !(is[[]any](value) && unwrap) ==> ncalls(exec.executeNextItem) == 1 && r0 == callret[resultStatus](exec.executeNextItem, 0) && r1 == callret[error](exec.executeNextItem, 1)
 
 //@ func (*Executor).execMethodBigInt
 //@ alsoprops E3 C16
@@ -871,6 +876,7 @@ func isUnknownSpec(a predOutcome) predOutcome {
 //@ ensures [C16] float-out-of-range: is[float64](value) && (isNaN(as[float64](value)) || !f2iInRange64(as[float64](value))) ==> ncalls(exec.executeNextItem) == 0 && r0 == statusFailed && (r1 == nil || errIs(r1, ErrVerbose))
 //@ ensures [C16] result-int: ncalls(exec.executeNextItem) == 1 ==> is[int64](callarg[any](exec.executeNextItem, "value"))
 //@ ensures [C16] domain: !(is[[]any](value) || is[int64](value) || is[float64](value) || is[json.Number](value) || is[string](value)) ==> r0 == statusFailed && ncalls(exec.executeNextItem) == 0
+//@ ensures [C06 C16] result-comes-from-continuation: r0 != statusFailed && !(is[[]any](value) && unwrap) ==> ncalls(exec.executeNextItem) == 1 && r0 == callret[resultStatus](exec.executeNextItem, 0) && r1 == callret[error](exec.executeNextItem, 1)
 
 //@ func (*Executor).execMethodBoolean
 //@ alsoprops E3 C16
@@ -882,6 +888,7 @@ func isUnknownSpec(a predOutcome) predOutcome {
 //@ ensures [C16] float-fraction: is[float64](value) && as[float64](value) != truncF(as[float64](value)) ==> ncalls(exec.executeNextItem) == 0 && r0 == statusFailed && (r1 == nil || errIs(r1, ErrVerbose))
 //@ ensures [C16] result-bool: ncalls(exec.executeNextItem) == 1 ==> is[bool](callarg[any](exec.executeNextItem, "value"))
 //@ ensures [C16] domain: !(is[[]any](value) || is[bool](value) || is[int64](value) || is[float64](value) || is[json.Number](value) || is[string](value)) ==> r0 == statusFailed && ncalls(exec.executeNextItem) == 0
+//@ ensures [C06 C16] result-comes-from-continuation: r0 != statusFailed && !(is[[]any](value) && unwrap) ==> ncalls(exec.executeNextItem) == 1 && r0 == callret[resultStatus](exec.executeNextItem, 0) && r1 == callret[error](exec.executeNextItem, 1)
 
 //@ func execBooleanString
 //@ props C16
@@ -901,6 +908,7 @@ func isUnknownSpec(a predOutcome) predOutcome {
 //@ ensures [C16] result-string: ncalls(exec.executeNextItem) == 1 ==> is[string](callarg[any](exec.executeNextItem, "value"))
 //@ ensures [C16 C18] datetime-prints-as-String: is[types.DateTime](value) ==> ncalls(exec.executeNextItem) == 1 && callarg[any](exec.executeNextItem, "value") == any(as[types.DateTime](value).String())
 //@ ensures [C16] domain: value == nil || is[map[string]any](value) ==> r0 == statusFailed && ncalls(exec.executeNextItem) == 0 && (r1 == nil || errIs(r1, ErrVerbose))
+//@ ensures [C06 C16] result-comes-from-continuation: r0 != statusFailed && !(is[[]any](value) && unwrap) ==> ncalls(exec.executeNextItem) == 1 && r0 == callret[resultStatus](exec.executeNextItem, 0) && r1 == callret[error](exec.executeNextItem, 1)
 
 //@ func (*Executor).executeNumericItemMethod
 //@ alsoprops E3 C16
@@ -956,6 +964,7 @@ func isUnknownSpec(a predOutcome) predOutcome {
 //@ atcall executeNextItem assert [C16] triple: arg_found == found && is[map[string]any](arg_value) && as[map[string]any](arg_value)["id"] == any(id) && as[map[string]any](arg_value)["key"] == any(k) && fresh(as[map[string]any](arg_value))
 //@ atcall executeNextItem assert [C16] fresh-base: exec.baseObject.id == exec.lastGeneratedObjectID
 //@ ensures [C16] non-object: !is[map[string]any](value) && !(is[[]any](value) && unwrap) ==> r0 == statusFailed && ncalls(exec.executeNextItem) == 0 && (r1 == nil || errIs(r1, ErrVerbose))
+//@ ensures [C06 C16] not-found-means-every-member-tried: is[map[string]any](value) && r0 == statusNotFound && r1 == nil && !(node.Next() == nil && found == nil) ==> ncalls(exec.executeNextItem) == len(as[map[string]any](value))
 //@ ensures [C16] empty: is[map[string]any](value) && len(as[map[string]any](value)) == 0 ==> r0 == statusNotFound && r1 == nil && ncalls(exec.executeNextItem) == 0
 
 // ---------------------------------------------------------------------------
